@@ -48,11 +48,17 @@ static Gen gen() {
     // a few more headers with mixed spellings, so that the framing headers sit at different places of the sorted index
     static const char* extra[] = {"Accept-Ranges", "Date", "ETag", "Server", "Age", "Via", "Warning", "Link", "Allow", "Range"};
     int ne = rnd() % 5; for (int i = 0; i < ne; ++i) g.wire += spell(extra[rnd() % 10], rnd() % 3) + ": e" + std::to_string(i) + "\r\n";
+    // a header whose value is empty (field-value is optional, RFC 7230 3.2) must not disturb its neighbours
+    if (rnd() % 3 == 0) g.wire += spell("X-Empty", rnd() % 3) + (rnd() % 2 ? ":\r\n" : ": \r\n");
+    // Connection: close together with explicit framing: the framing headers still delimit the body (3.3.3), what follows stays unread
+    bool closing = rnd() % 4 == 0;
+    if (closing) g.wire += spell("Connection", rnd() % 3) + ": close\r\n";
     std::string framing;
     if (g.chunked) {
         framing = spell("Transfer-Encoding", rnd() % 3) + ": chunked\r\n";
-    } else framing = spell("Content-Length", rnd() % 3) + ": " + std::to_string(g.body.size()) + "\r\n";
+    } else framing = spell("Content-Length", rnd() % 3) + ": " + (rnd() % 5 == 0 ? "00" : "") + std::to_string(g.body.size()) + "\r\n";
     g.wire += framing;
+    if (rnd() % 4 == 0) g.wire += spell("X-Empty2", rnd() % 3) + ":\r\n";          // also right behind the framing header
     int ne2 = rnd() % 3; for (int i = 0; i < ne2; ++i) g.wire += spell(extra[rnd() % 10], rnd() % 3) + ": f" + std::to_string(i) + "\r\n";
     g.wire += "\r\n";
     if (g.chunked) {
@@ -106,7 +112,7 @@ int main(int argc, char** argv) {
         }
         { std::vector<size_t> all; for (size_t c = 1; c < n; ++c) all.push_back(c); ++cases; if (!run_split(g, all, 256)) { emit(g, all, 256); return 3; } }   // one byte at a time
     }
-    printf("OK %lu (generated responses (Content-Length and chunked) x every 2-way split, random 3-way splits, byte-at-a-time; keep-alive positioning)\n", cases);
+    printf("OK %lu (generated responses (Content-Length incl. 0 / leading zeros, chunked; empty-valued headers; Connection: close with explicit framing) x every 2-way split, random 3-way splits, byte-at-a-time; keep-alive positioning)\n", cases);
     photon::fini();
     return 0;
 }
